@@ -56,10 +56,54 @@ def product_graph(cx, fn, limit=60000):
     return nodes, edges
 
 
-def cycles_without(cx, fn, progress_blocks):
-    """blocks lying on a cycle of the product graph that avoids every progress block"""
-    nodes, edges = product_graph(cx, fn)
+def success_edges(cx, fn, call_blocks, max_steps=8):
+    """A fallible reader (Result / Option) consumes input only when it succeeds.  For every call block in `call_blocks` find the
+    branch that tests the call's result (directly, or through `?` / map_err / Restrict adaptors: the first branching block on the
+    straight-line continuation whose edge propositions are ok(T) / !ok(T) with T containing the call's own term) and return
+    ({(branch_bb, ok_succ)}, {call blocks whose result test was not found}).  The caller treats only the success EDGE as
+    progress; an unresolved call keeps its block (the result is not branched on nearby: `?`-less value use)."""
+    import re
+    from api import shorten
+    edges, unresolved = set(), set()
+    for cb in call_blocks:
+        t = fn.blocks[cb]['t']
+        try:
+            ct = shorten(fn.term_call(t, 0))
+        except Exception:
+            unresolved.add(cb)
+            continue
+        head = ct.split('(')[0]
+        bb = t[4] if len(t) > 4 and isinstance(t[4], int) else None
+        succs = [x for x in fn.succs(cb) if not fn.blocks[x]['cleanup']]
+        bb = succs[0] if len(succs) == 1 else None
+        found = False
+        for _ in range(max_steps):
+            if bb is None:
+                break
+            ss = [x for x in fn.succs(bb) if not fn.blocks[x]['cleanup']]
+            if len(ss) >= 2:
+                ep = fn.edge_props(bb) or {}
+                oks = [x for x in ss if any(re.match(r'^(ok|is)\(', shorten(p_)) and head in shorten(p_) for p_ in ep.get(x, []))]
+                ers = [x for x in ss if any(re.match(r'^!(ok|is)\(', shorten(p_)) and head in shorten(p_) for p_ in ep.get(x, []))]
+                if len(oks) == 1 and ers:
+                    edges.add((bb, oks[0]))
+                    found = True
+                break
+            bb = ss[0] if len(ss) == 1 else None
+        if not found:
+            unresolved.add(cb)
+    return edges, unresolved
+
+
+def cycles_without(cx, fn, progress_blocks, progress_edges=()):
+    """blocks lying on a cycle of the product graph that avoids every progress block (and every progress edge)"""
+    nodes, edges0 = product_graph(cx, fn)
     keep = {n for n in nodes if n[0] not in progress_blocks}
+    pe = set(progress_edges)
+    if pe:
+        edges = {k: {w for w in v if (k[0], w[0]) not in pe} for k, v in edges0.items()}
+    else:
+        edges = edges0
     # iterative Tarjan SCC on the restricted graph
     index = {}
     low = {}
